@@ -124,6 +124,14 @@ def _work(arg):
                 r2 = _check_graph(nodes, anc, shuffle_seed=bits)
                 if r2 != r:
                     bad.append((n, bits, f"order depends on the insertion order of the definitions: {r} vs {r2}"))
+                # ... also for names that differ only by case (any tie-break other than the names themselves shows up here)
+                ren = dict(zip(nodes, ["B", "b", "A", "a", "C"]))
+                nodes_c = [ren[x] for x in nodes]
+                anc_c = {ren[k_]: {ren[x] for x in v_} for k_, v_ in anc.items()}
+                rc1 = _check_graph(nodes_c, anc_c)
+                rc2 = _check_graph(nodes_c, anc_c, shuffle_seed=bits + 1)
+                if rc1 != rc2:
+                    bad.append((n, bits, f"order of names differing only by case depends on the insertion order of the definitions: {rc1} vs {rc2}"))
     return count, nontrivial, bad
 
 
